@@ -378,6 +378,14 @@ class SReal:
                 n = int(fo)
                 if abs(n) > 64:
                     return SReal(POW(base, rv(fo)))
+                if n in (2, -2) and z3.is_const(base):
+                    # (sqrt(a))**2 = a: the definition of the square-root symbol, applied directly
+                    try:
+                        for rsym, arg in cur()._sqrt.values():
+                            if rsym.eq(base):
+                                return SReal(_simp(arg if n == 2 else 1 / arg))
+                    except Exception:  # noqa: BLE001
+                        pass
                 r = z3.RealVal(1)
                 for _ in range(abs(n)):
                     r = r * base
